@@ -149,6 +149,11 @@ func checkC11(c c11Case) string {
 		for _, it := range got {
 			list2 = append(list2, cueSpec{S: int64(it.StartAt), E: int64(it.EndAt), T: itemText(it)})
 		}
+		if n := len(got); n >= 2 {
+			// ... and gives its first cue the text of its last one (same cue object, new lines)
+			list2[0].T = list2[n-1].T
+			got[0].Lines = textLines(list2[0].T)
+		}
 		list2 = append(list2, extra...)
 		for _, e := range extra {
 			b.sub.Items = append(b.sub.Items, &astisub.Item{StartAt: time.Duration(e.S), EndAt: time.Duration(e.E), Lines: textLines(e.T)})
@@ -162,6 +167,36 @@ func checkC11(c c11Case) string {
 			it := b.sub.Items[k]
 			if int64(it.StartAt) != w.s || int64(it.EndAt) != w.e || itemText(it) != textKey(list2[w.first].T) {
 				return fmt.Sprintf("second Unfragment, after the caller appended two cues: position %d is [%d,%d)%q, specification says [%d,%d)%q; list before the call: %s", k, int64(it.StartAt), int64(it.EndAt), itemText(it), w.s, w.e, textKey(list2[w.first].T), fmtSpecs(list2))
+			}
+		}
+	}
+	// the same value was fragmented before (any period): Unfragment merges what touches, wherever the junction lies -
+	// the pieces and what touched before alike, so the result covers what Unfragment alone gives
+	if !c.Dup && len(c.Cues) > 0 {
+		var span int64 = 1
+		for _, cu := range c.Cues {
+			if cu.E > span {
+				span = cu.E
+			}
+		}
+		f := span/5 + 1
+		b3 := buildList(c.Cues)
+		b3.sub.Fragment(time.Duration(f))
+		b3.sub.Unfragment()
+		type key struct {
+			s, e int64
+			t    string
+		}
+		wantN, gotN := map[key]int{}, map[key]int{}
+		for _, w := range want {
+			wantN[key{w.s, w.e, textKey(c.Cues[w.first].T)}]++
+		}
+		for _, it := range b3.sub.Items {
+			gotN[key{int64(it.StartAt), int64(it.EndAt), itemText(it)}]++
+		}
+		for k, n := range wantN {
+			if gotN[k] != n || len(b3.sub.Items) != len(want) {
+				return fmt.Sprintf("Unfragment after Fragment(%d) on the same value: %d cues, [%d,%d)%q %d times; Unfragment alone gives %d cues and that one %d times; in: %s out: %s", f, len(b3.sub.Items), k.s, k.e, k.t, gotN[k], len(want), n, fmtSpecs(c.Cues), fmtItems(b3.sub.Items))
 			}
 		}
 	}
